@@ -31,7 +31,7 @@ Definition keep (k:obj) (y:pyval) : Prop := not_none y || negb (is_true (ooption
 
 Section ScopeM.
   Variable pe : str -> option Conv.evr.
-  Variable ex : str -> str.
+  Variable ex : str -> option str.
 
   Fixpoint pdom_m (m:obj) (v:pyval) : Prop :=
     match m with
